@@ -27,11 +27,11 @@ LEVEL = "exploration"
 RULE = (
     "Hypothesis-generated modules of 1-4 classes (dataclass / plain mixed, <=2 bases each, depth <=3) whose bodies draw from: "
     "annotated fields with plain / field(default|default_factory|init|kw_only|repr) values, InitVar, ClassVar (subscripted and bare), "
-    "KW_ONLY marker, un-annotated attributes, properties / cached properties with and without return annotation, methods, hand-written __init__; decorator forms @dataclass / @dataclass() / "
+    "KW_ONLY marker (named `_`, `_kw` or `marker`), un-annotated attributes, properties / cached properties with and without return annotation, methods, hand-written __init__; decorator forms @dataclass / @dataclass() / "
     "@dataclass(init=, kw_only=, other flag); 4 import forms; PEP 563 on/off; names from a pool of 5 so that overrides are common. "
     "Two cases in ten split the hierarchy over two top-level packages loaded one after the other (base package first) into one "
     "GriffeLoader, with InitVar fields in the base package. Two cases in ten spread the classes over a package (__init__, m1, m2; imports package->submodule, submodule->package, "
-    "submodule->sibling, relative or absolute, explicit or `from .src import *` with/without __all__ in the source; never cyclic). One case in ten is a diamond of four dataclasses (C0 <- C1, C0 <- C2, C3(C2, C1)); two in ten are a history: two variants of a same-named module loaded one after the other (separate loaders and collections) "
+    "submodule->sibling, relative or absolute, explicit or `from .src import *` with/without __all__ in the source; never cyclic). One case in ten is a diamond (C0 <- C1, C0 <- C2, C3(C2, C1); C2 undecorated one time in three); two in ten are a history: two variants of a same-named module loaded one after the other (separate loaders and collections) "
     "through ONE griffe.load_extensions() result, each judged against CPython. "
     "Only modules CPython accepts are evaluated. non-trivial = a dataclass at depth >=2 overriding an inherited field, or keyword-only "
     "interplay (flag / marker / field(kw_only)) in a dataclass with >=2 constructor fields; distinct = distinct module source"
